@@ -118,3 +118,32 @@ func Harness_C06_listInvalids() {
 	zzsym.Assert(sameErrors(got.errs, want.Errors), "same multiset of errors on every schedule (one per failing element)")
 	zzsym.Reach("c06.listinvalids")
 }
+
+// Harness_C06_sharedVariables: one request variable (an input object that
+// leaves defaulted fields out) feeds the arguments of several concurrently
+// resolved fields and list elements: every resolver receives the coerced
+// value, the request's variables are left as they were, and no two
+// goroutines touch the same memory unordered.
+func Harness_C06_sharedVariables() {
+	doc := mustLoad(`query($f: Filter, $p: Patch) { me { a: calc(f: $f) b: calc(f: $f) c: patch(p: $p) } users { calc(f: $f) } }`)
+	w := newWorld(0, false)
+	w.gated = true
+	vars := map[string]any{
+		"f": map[string]any{"tags": []any{"t"}, "sub": map[string]any{"g": int64(2)}},
+		"p": map[string]any{"note": "n"},
+	}
+	op := doc.Operations[0]
+	got := runOp(w, doc, op, vars)
+	want := ref.Execute(pSchema, doc, op, vars, w)
+	zzsym.Assert(got.data == want.Data && len(got.errs) == 0, "same data on every schedule")
+	for _, a := range w.args {
+		ok := a == "f={min:1 tags:[t] sub:{min:1 tags:nil sub:nil g:2} g:nil} xs=nil e=RED o=nil id=nil fl=nil n=7 ys=nil" || a == "p={note:n count:5 tags:unset sub:unset} b=nil"
+		zzsym.Assert(ok, "every resolver receives the coerced value of the shared variable")
+	}
+	f := vars["f"].(map[string]any)
+	_, hasMin := f["min"]
+	_, subHasMin := f["sub"].(map[string]any)["min"]
+	_, hasCount := vars["p"].(map[string]any)["count"]
+	zzsym.Assert(len(f) == 2 && !hasMin && !subHasMin && !hasCount, "the request's variables are not modified by coercing arguments from them")
+	zzsym.Reach("c06.sharedvars")
+}
